@@ -5,12 +5,40 @@ gen_certs.py — certificate generator for property C04 (Conway polynomial datab
 HOW TO REGENERATE (do this whenever /repo/finitefield/conway/cpimport.go changes):
 
     python3-vt /verif/tools/gen_certs.py            # rewrites /verif/lean/Algobra/Certs/{Data,Sweep??,All}.lean
-    cd /verif/lean && lake build Algobra.Props.C04  # re-checks everything against Gen/ConwayText.lean
+                                                    #   AND the thorough-tier files {BigData,Big??,BigAll}.lean
+    cd /verif/lean && lake build Algobra.Props.C04  # re-checks everything against Gen/ConwayText.lean (default tier)
+    cd /verif/lean && lake build Algobra.Props.C04Full   # thorough tier: the FULL statement C04_full (see below)
+
+    python3-vt /verif/tools/gen_certs.py --big-only # only the thorough-tier files Certs/{BigData,Big??,BigAll}.lean (6 s)
+    python3-vt /verif/tools/gen_certs.py --no-big   # only the default-tier files
 
 (`Gen/ConwayText.lean` itself is regenerated from the same Go file by /verif/extract; this script
 reads the Go file directly and never looks at the Lean copy.  The certificates are UNTRUSTED hints:
-`Certs/Checker.lean` re-verifies every one of them against the parsed `Gen.dbText`, so a stale or wrong
-certificate can only make the build fail, never make a false theorem pass.)
+`Certs/Checker.lean` / `Certs/CheckerBig.lean` re-verify every one of them against the parsed `Gen.dbText`,
+so a stale or wrong certificate can only make the build fail, never make a false theorem pass.)
+
+THOROUGH TIER (Big modules) — irreducibility of the entries with p^n >= 2^64 and degree > rabinMaxDeg
+  (at present 184 entries, degrees 129..409), which the default tier leaves open (`C04.db_irreducible_big_full`).
+  Certs/BigData.lean  `bigModules` (= BIG_MODULES below) and one `(database index, module number, certificate)`
+                      item per such entry; certificate text "0:mu r1:inv1 r2:inv2 ...": for every prime r | n the
+                      inverse of x^(p^(n/r)) - x in F_p[x]/(f) as in rabinChunks, and the pseudo-item 0:mu with
+                      mu = floor(x^(2n-2)/f), a pure speed hint for the Barrett reduction of the fast checker
+                      (a wrong mu only makes the checker fall back to the slow multiplication)
+  Certs/BigNN.lean    NN = 00..BIG_MODULES-1: `native_decide` evaluation of `bigSliceOf BigData.bigRaw NN`, i.e. of
+                      the fast Rabin checker `rabinOKBig` (Certs/CheckerBig.lean, Kronecker substitution on GMP
+                      numbers; kernel-checked soundness `rabinOKBig_sound` in Proofs/ConwayBig.lean) on the items
+                      assigned to module NN.  Items are assigned by estimated cost (`big_cost`, longest first to the
+                      least loaded module), not by count, so that `lake build` runs balanced modules in parallel.
+  Certs/BigAll.lean   imports all BigNN; `big_all` (all slices), `big_cover` (`native_decide`: every entry with
+                      p^n >= 2^64 and degree > rabinMaxDeg has an item with module number < bigModules) and the
+                      non-vacuity witness `bigExample` / `big_example_ok`
+  Props/C04Full.lean  (hand-written) `db_irreducible_big`, `C04_full`, `lookup_irreducible`.
+  Nothing of this is imported by Props/C04.lean or the default build.  To change the number of modules edit
+  BIG_MODULES and re-run with --big-only (stale BigNN.lean files are removed; Props/C04Full.lean needs no change).
+  If rabinMaxDeg in Certs/Checker.lean is changed, re-run this script (both tiers read it); Props/C04Full.lean
+  mentions the literal 128.
+  Measured (16 cores, load average 1.7 at start): `lake build Algobra.Props.C04Full` with Props/C04 already built:
+  30 s wall, 225 s user + 66 s system CPU (32 Big modules of 5..11 s each, 3 s of which is loading/parsing the database).
 
 What is generated
   Certs/Data.lean     string chunks (<= 60 KB each, split at line boundaries)
@@ -36,7 +64,7 @@ Props/C04.lean (db_shape); a changed entry, a new prime factor etc. needs nothin
 Measured: this script 15 s; clean `lake build Algobra.Props.C04` 34 CPU-minutes (about 2-3 min on 16 idle cores).
 
 Hand-written, NOT touched by this script: Certs/Checker.lean (the checkers), Certs/Inst.lean (instantiation
-with the data), Certs/TabCheck.lean (prime table check).
+with the data), Certs/TabCheck.lean (prime table check), Certs/CheckerBig.lean (fast Rabin checker, thorough tier).
 """
 import os
 import re
